@@ -152,6 +152,20 @@ func c04Scenarios() []c04Scenario {
 			must(t.Exec("delete from {T} where a=1"))
 			return t.Exec("commit")
 		}},
+		{Name: "row with a newer entry time; transaction with an OLDER write time updates another column and inserts a row", EPN: 4096, Build: func(w *engine.World) {
+			c04Writer(w, "a", 4096, func(c *engine.Client) {
+				must(c.SetWriteTime(engine.T(100)))
+				must(c.Exec("insert into {T} values(1,'b0','c0')"))
+				must(c.SetWriteTime(engine.T(300)))
+				must(c.Exec("update {T} set b='b2' where a=1"))
+			})
+		}, Run: func(w *engine.World, t *engine.Client) error {
+			must(t.SetWriteTime(engine.T(200)))
+			must(t.Exec("begin"))
+			must(t.Exec("update {T} set c='c1' where a=1"))
+			must(t.Exec("insert into {T} values(2,'x','y')"))
+			return t.Exec("commit")
+		}},
 		{Name: "history; vacuum cutoff before everything", EPN: 4096, Build: history(4096), SameRows: true, Run: vacuum(50)},
 		{Name: "history; vacuum cutoff in the middle", EPN: 4096, Build: history(4096), SameRows: true, Run: vacuum(350)},
 		{Name: "history; vacuum cutoff after everything", EPN: 4096, Build: history(4096), SameRows: true, Run: vacuum(5000)},
